@@ -86,7 +86,7 @@ fn report_failure(args: &Args, rep: &mut Report, ast: &OpeningHoursExpression, h
 }
 
 pub fn run(args: &Args, rep: &mut Report) {
-    let n = args.cases(60_000, 600_000);
+    let n = args.cases(60_000, 40_000);
     let cap = if args.thorough() { 20_000 } else { 4_000 };
     let mut open_ended_budget = if args.thorough() { 200 } else { 6 };
     let mut st = PointwiseStats::default();
